@@ -143,6 +143,27 @@ theorem range_size_correct (t : IntTy) (hb : 1 ≤ t.bits) (n : Nat) (h : (n : I
     · simp only [IntTy.hi, IntTy.toUnsigned] at h ⊢
       split at h <;> simp <;> omega
 
+/-- `range::empty` of an int range: exactly when `e ≤ b`; `range::singular`: exactly when it has one element (the increment
+inside `singular` is never applied at the maximum of the type) -/
+theorem int_range_empty_singular (t : IntTy) (hb : 1 ≤ t.bits) (b e : Int) (hbr : t.InRange b) (her : t.InRange e) :
+    ((makeIntRange b e).empty = true ↔ e ≤ b) ∧
+      (makeIntRange b e).singular t = .ok (decide (Spec.intRangeCount b e = 1)) := by
+  unfold makeIntRange IntRange.make IntRange.singular IntRange.empty IntIter.equal Spec.intRangeCount
+  by_cases h : e < b
+  · simp only [h, if_true]
+    refine ⟨by simp; omega, ?_⟩
+    have : ¬ (e - b).toNat = 1 := by omega
+    simp [this]
+  · simp only [h, if_false]
+    refine ⟨by simp; omega, ?_⟩
+    by_cases hbe : b = e
+    · subst hbe; simp
+    · have hne : ¬ b = e := hbe
+      simp only [decide_eq_true_eq, hne, if_false]
+      rw [incr_ok t hb hbr.1 (by have := her.2; omega)]
+      have hiff : b + 1 = e ↔ (e - b).toNat = 1 := by omega
+      simp only [hiff]
+
 /-! ## `int_iterator` / `enum_::iterator` used directly, the operations inherited from `iterator::base` -/
 
 /-- `a == b` on `int_iterator`s (and `enum_::iterator`s) is equality of the values, `a != b` its negation -/
@@ -256,6 +277,23 @@ theorem enum_make_range_full_width_empty (w : Nat) (f : Nat) :
   have h : (sizeTy w).wrap (2 ^ w) = 0 := by
     simp [IntTy.wrap, sizeTy]
   simp [makeRange, makeRangeStart, makeRangeStartEnd, EnumRange.elems, h, intLoop_succ]
+
+/-- `range::empty` / `range::singular` of an enum sub-range `[s, e]` -/
+theorem enum_range_empty_singular (w : Nat) (hw : 1 ≤ w) (s e : Int) (hs : 0 ≤ s) (hse : s ≤ e + 1) (he : e + 1 < 2 ^ w) :
+    ((makeRangeStartEnd w s e).empty = true ↔ s = e + 1) ∧ (makeRangeStartEnd w s e).singular w = .ok (decide (s = e)) := by
+  have hlo : (sizeTy w).lo = 0 := by simp [sizeTy, IntTy.lo]
+  have hhi : (sizeTy w).hi = 2 ^ w - 1 := by simp [sizeTy, IntTy.hi]
+  have hb : 1 ≤ (sizeTy w).bits := hw
+  unfold makeRangeStartEnd EnumRange.singular EnumRange.empty IntIter.equal
+  simp only
+  rw [IntTy.wrap_of_inRange (sizeTy w) hb ⟨by omega, by omega⟩]
+  refine ⟨by simp, ?_⟩
+  by_cases h : s = e + 1
+  · simp [h]; omega
+  · simp only [decide_eq_true_eq, h, if_false]
+    rw [incr_ok (sizeTy w) hb (by omega) (by omega)]
+    have hiff : s + 1 = e + 1 ↔ s = e := by omega
+    simp only [hiff]
 
 /-- `enum_::range<E>(b, e)` constructed directly from two `size_type` values is the half-open `[b, e)` -/
 theorem enum_range_direct_elems (w : Nat) (hw : 1 ≤ w) (b e : Int) (hb0 : 0 ≤ b) (hbe : b ≤ e) (he : e < 2 ^ w) (f : Nat) :
@@ -626,6 +664,16 @@ theorem iterator_range_size (i j : Nat) (hij : i ≤ j) (hj : (j : Int) < 2 ^ 63
   have hin : (IntTy.mk false 64).InRange ((j : Int) - i) := by
     simp [IntTy.InRange, IntTy.lo, IntTy.hi]; omega
   rw [IntTy.wrap_of_inRange _ (by decide) hin]; omega
+
+/-- `range::empty` / `range::singular` of an iterator range, `range::from_pair` -/
+theorem iter_range_empty_singular (i j : Nat) (hij : i ≤ j) :
+    ((iterMakeRange i j).empty = true ↔ j - i = 0) ∧ ((iterMakeRange i j).singular = true ↔ j - i = 1) ∧
+      iterFromPair (i, j) = iterMakeRange i j := by
+  refine ⟨?_, ?_, rfl⟩
+  · show (decide (i = j) = true ↔ j - i = 0)
+    rw [decide_eq_true_iff]; omega
+  · show ((!decide (i = j) && decide (i + 1 = j)) = true ↔ j - i = 1)
+    rw [Bool.and_eq_true, Bool.not_eq_true', decide_eq_false_iff_not, decide_eq_true_iff]; omega
 
 /-- `operator==` of two `iterator::range`s: both ends equal -/
 theorem iter_range_equal_iff (l r : IterRange) :
